@@ -1,2 +1,2 @@
 """imports every extern / lemma module (registration by side effect)"""
-from . import ext_numpy, ext_pandas, ext_anyobj, ext_scipy, ext_strings, ext_opaque, ext_graph, lemmas_c06, lean_plugin, bounded_plugins, frame_plugin  # noqa: F401
+from . import ext_numpy, ext_pandas, ext_anyobj, ext_scipy, ext_strings, ext_opaque, ext_graph, ext_plot, lemmas_c06, lean_plugin, bounded_plugins, frame_plugin  # noqa: F401
